@@ -1223,10 +1223,10 @@ impl DnsRegistry {
         probe.insert_record(answer.clone_box());
         probe.waiting_services.insert(service_name.to_string());
 
-        // A record that joins a probe that is already under way has not been
-        // in the probe queries sent so far: start the schedule over, so that
-        // it is probed three times like the others.
-        if probe.start_time < start_time {
+        // A record that joins a probe that has sent a query already (`next_send`
+        // has moved on) has not been in the probe queries sent so far: start
+        // the schedule over, so that it is probed three times like the others.
+        if probe.next_send > probe.start_time {
             probe.start_time = start_time;
             probe.next_send = start_time;
             self.new_timers.push(start_time);
